@@ -123,6 +123,10 @@ def generate(ctx, rng):
     plan = [("rot", "Persist_rot_gen.cfg" if q else "Persist_rot_thorough.cfg", 10, 700 if q else None),
             # the retention value is edited between operations
             ("rot", "Persist_rot_rekeep_gen.cfg" if q else "Persist_rot_rekeep.cfg", 8, 150 if q else None),
+            # two-digit backup indices: retention 10..12, pre-existing sets around the window (full runs, gaps
+            # in front of .old.10, two-digit folders only), and a chain of 15 saves from nothing (>= N+1 cleans)
+            ("rot", "Persist_rot_wide.cfg", 6, 120 if q else None),
+            ("rot", "Persist_rot_long.cfg", 20, None),
             ("snap", "Persist_snap_gen.cfg" if q else "Persist_snap.cfg", 8, 40 if q else 500),
             ("xfer", "Persist_xfer_gen.cfg", 8, 170 if q else None),
             ("xfer", "Persist_xfer_rounds.cfg", 10, 40 if q else 600),
